@@ -110,9 +110,11 @@ func runC10(cases []string, out *bufio.Writer, _ []string) {
 		call := func(f func(ctx context.Context, id string, gen *int64)) {
 			n := int64(len(ids) + 1)
 			curCtx.Store(n)
-			// arbitrary contexts: a derived one, the two root contexts, an already cancelled one
+			// arbitrary contexts: a derived one, the two root contexts, an already cancelled one, and nil
 			var ctx context.Context
-			switch n % 4 {
+			switch n % 5 {
+			case 4: // no context at all: the hooks get what the caller passed, nil included
+				ctx = nil
 			case 0:
 				ctx = context.Background()
 			case 1:
